@@ -15,12 +15,16 @@ Open Scope Z_scope. Open Scope list_scope.
 (* ------------------------------------------------------------------ ConstantTimeEq (src/modular/monty_form.rs) *)
 (* impl ConstantTimeEq for MontyParams<LIMBS>:
      self.modulus.ct_eq(..) & self.one.ct_eq(..) & self.r2.ct_eq(..) & self.r3.ct_eq(..) & self.mod_neg_inv.ct_eq(..)
-   (left associative; `mod_leading_zeros` is NOT compared) *)
+       & self.mod_leading_zeros.ct_eq(..)
+   (left associative; the last conjunct was added by the repair of finding F34, /repo d240cb2) *)
+(* subtle: u32::ct_eq : x = a ^ b ; y = (x | x.wrapping_neg()) >> 31 ; Choice((y ^ 1) as u8) *)
+Definition u32_ct_eq (a b : Z) : Z := let x := Z.lxor a b in Z.lxor (Z.lor x ((- x) mod 2 ^ 32) / 2 ^ 31) 1.
 Definition g2_params_ct_eq (p q : mparams) : Z :=
-  ch_and (ch_and (ch_and (ch_and (uint_ct_eq (mp_m p) (mp_m q)) (uint_ct_eq (mp_one p) (mp_one q)))
-                         (uint_ct_eq (mp_r2 p) (mp_r2 q)))
-                 (uint_ct_eq (mp_r3 p) (mp_r3 q)))
-         (limb_ct_eq (mp_k p) (mp_k q)).
+  ch_and (ch_and (ch_and (ch_and (ch_and (uint_ct_eq (mp_m p) (mp_m q)) (uint_ct_eq (mp_one p) (mp_one q)))
+                                 (uint_ct_eq (mp_r2 p) (mp_r2 q)))
+                         (uint_ct_eq (mp_r3 p) (mp_r3 q)))
+                 (limb_ct_eq (mp_k p) (mp_k q)))
+         (u32_ct_eq (mp_lz p) (mp_lz q)).
 (* impl ConstantTimeEq for MontyForm<LIMBS>: self.montgomery_form.ct_eq(..) & self.params.ct_eq(..) *)
 Definition g2_form_ct_eq (r1 : list Z) (p : mparams) (r2 : list Z) (q : mparams) : Z :=
   ch_and (uint_ct_eq r1 r2) (g2_params_ct_eq p q).
